@@ -27,7 +27,7 @@ pub fn generic_and_family_stats(
     };
     // depth = number of construction steps (fields added + further instantiations added)
     let budget = Budget {
-        max_depth: if thorough { 4 } else { 2 },
+        max_depth: if thorough { 3 } else { 2 },
         wall: Duration::from_secs(if thorough { 900 } else { 40 }),
         max_states: 40_000_000,
     };
